@@ -82,6 +82,7 @@ int merge_arg_lists (int num_arg, array_t * arr, int start) {
 
   if (num_arr_arg)
     {
+      STACK_CHECK (num_arr_arg);
       sptr = (sp += num_arr_arg);
       if (num_arg)
         {
@@ -289,6 +290,11 @@ svalue_t* call_function_pointer (funptr_t * funp, int num_arg) {
 
   if (funp->hdr.owner->flags & O_DESTRUCTED)
     error ("*Owner (/%s) of function pointer is destructed.", funp->hdr.owner->name);
+
+  /* room for the bound arguments is checked before any frame is pushed:
+   * merge_arg_lists() runs while the new frame is only half set up */
+  if (funp->hdr.args)
+    STACK_CHECK (funp->hdr.args->size);
 
   setup_fake_frame (funp);
 
